@@ -63,6 +63,7 @@ func runC05(c *Ctx) {
 	// stored values never alias a caller's or a reader's buffer (shared with C04): without the copies a
 	// reader outside the lock races with writers and an in-place overwrite tears snapshots
 	checkCopyDiscipline(r, p)
+	checkKVStoreTrustedHelpers(r, p)
 	checkFieldUseDiscipline(r, p, pkg, "mapDB")
 	checkFieldUseDiscipline(r, p, pkg, "batchedMutations")
 }
